@@ -115,6 +115,8 @@ fn main() {
     report::install_panic_hook();
     match property.as_str() {
         "C01" => mon::c01::run(&mut ctx),
+        "C19" => mon::c19::run(&mut ctx),
+        "C19PEER" => mon::c19::peer(&mut ctx),
         "C11" => mon::c11::run(&mut ctx),
         "C12" => mon::c12::run(&mut ctx),
         "C20" => mon::c20::run(&mut ctx),
